@@ -338,6 +338,24 @@ def scale_plans(tier, rng):
     plans.append({"tree": tree, "ops": [op("read_dir", ["d"]), op("read_dir", ["d", "..."]), op("metadata", ["d", ".h", "x"]),
                                         op("copy", ["d", ".f"], ["d", "..h", ".y"]), op("remove_dir_all", ["d", "..h"]),
                                         op("remove_dir_all", ["d"]), op("read", ["keep"])]})
+    # -- sparse sources (real holes, 16 KiB granules): hole at the start / in the middle / at the END / nothing but a
+    #    hole / data-hole-data-hole, copied over a fresh and over an existing LONGER destination: same length, same bytes
+    G = 16384
+    layouts = {"hole_start": (4 * G, [[2 * G, 2 * G, 11]]), "hole_middle": (5 * G, [[0, G, 12], [4 * G, G, 13]]),
+               "hole_end": (6 * G, [[0, G, 14]]), "only_hole": (3 * G, []), "d_h_d_h": (8 * G, [[0, G, 15], [3 * G, 2 * G, 16]]),
+               "hole_end_odd": (5 * G + 123, [[G, 100, 17]]), "tiny_then_hole": (2 * G, [[0, 1, 18]])}
+    for name, (n, segs) in sorted(layouts.items()):
+        src = {"sparse": segs, "n": n}
+        for prior in (None, {"gen": 9, "n": n + 5000}):
+            tree = root + [D(["d"]), F(["src"], src)] + ([F(["d", "dst"], prior)] if prior else [])
+            plans.append({"tree": tree, "ops": [op("copy", ["src"], ["d", "dst"]), op("metadata", ["d", "dst"]), op("read", ["d", "dst"]),
+                                                op("fcopy", ["src"], ["d", "dst2"], c={"n": 7, "b": [], "h": ""}), op("read", ["src"])]})
+    # -- files whose read(2) calls come back SHORT although st_size is known (sysfs binary attributes: one page per call)
+    for x in ("/sys/kernel/btf/vmlinux",):
+        if os.path.exists(x) and os.path.getsize(x) > 8192:
+            o = op("read_x", [])
+            o["x"] = x
+            plans.append({"tree": root, "ops": [o]})
     # -- big files: write / read / copy over shorter, equal, longer destinations
     sizes = [65, 4096, 70000, 1 << 20] + ([8 << 20] if tier == "thorough" else [])
     for n in sizes:
@@ -475,6 +493,38 @@ def run_dirmatrix(chk, bindir, tier):
     return len(recs)
 
 
+def start_bigread(chk, bindir, tier):
+    """fs::read (thorough: and read_to_string) of a sparse file one byte longer than what ONE read(2) hands out
+    (0x7ffff000): every whole-file operation must loop.  Runs in the background (needs ~2 GiB for a moment)."""
+    base = os.path.join(chk.work, "roots_bigread")
+    os.makedirs(base, exist_ok=True)
+    return subprocess.Popen([os.path.join(bindir, "fsops"), "bigread", base, str(0x7ffff001), "read" if tier == "quick" else "both"],
+                            stdout=subprocess.PIPE, stderr=subprocess.PIPE, text=True)
+
+
+def finish_bigread(chk, proc):
+    try:
+        out, err = proc.communicate(timeout=900)
+    except subprocess.TimeoutExpired:
+        proc.kill()
+        raise core.ToolError("bigread did not finish in 900 s")
+    shutil.rmtree(os.path.join(chk.work, "roots_bigread"), ignore_errors=True)
+    evs = [json.loads(l) for l in out.splitlines() if l.startswith("{")]
+    if not evs:
+        chk.violate({"op": "read", "expected": "ok", "got": "crashed", "detail": "file_larger_than_one_read"},
+                    "fs::read of a 0x7ffff001-byte file died: " + err[-300:], {"mode": "bigread"})
+        return
+    chk.extra["bigread"] = evs
+    for ev in evs:
+        chk.evaluations += 1
+        if ev["res"] == "ok" and ev["got_len"] == ev["len"] and ev["content_ok"]:
+            chk.traces += 1
+        else:
+            chk.violate({"op": ev["op"], "expected": "ok", "got": ev["res"], "detail": "file_larger_than_one_read"},
+                        "fs::%s of a %d-byte sparse file: %s, %d bytes returned, content_ok=%s" % (ev["op"], ev["len"], ev["res"], ev["got_len"], ev["content_ok"]),
+                        {"mode": "bigread", "event": ev})
+
+
 def run_bigcopy(chk, bindir):
     """One copy of a sparse file larger than the kernel's per-call limit of copy_file_range
     (2 GiB - 4 KiB), so File::copy's loop really iterates.  Judged by the same rule as FsTree's
@@ -530,6 +580,7 @@ def run(tier):
     bindir = core.cargo_build(bins=["fsops"])
     nontrivial = set()
 
+    bigread = start_bigread(chk, bindir, tier)
     # independent TLC jobs run concurrently (4 workers each)
     pool = concurrent.futures.ThreadPoolExecutor(max_workers=4)
     nsim, depth = (1500, 4) if tier == "quick" else (20000, 6)
@@ -652,6 +703,7 @@ def run(tier):
             nontrivial.add(("scale", json.dumps(p["ops"][0]["p"])[:80], len(p["tree"])))
     nf = run_fanout(chk, bindir, tier)
     run_dirmatrix(chk, bindir, tier)
+    finish_bigread(chk, bigread)
     if tier == "thorough":
         run_bigcopy(chk, bindir)
 
